@@ -143,7 +143,8 @@ pub fn max_coupons_in_envelope(lg_k: u8) -> u64 {
 pub fn natural_order(rng: &mut Rng, lg_k: u8, c_max: u64) -> Vec<u32> {
     let k = 1usize << lg_k;
     let full = c_max >= (k as u64) * 40;
-    if full || lg_k <= 12 {
+    // the complete event list is only worth building when a large part of it is needed
+    if full || (lg_k <= 12 && c_max * 3 >= (k as u64) * 64) || lg_k <= 5 {
         let mut ev: Vec<(f64, u32)> = Vec::with_capacity(k * 64);
         for r in 0..k {
             for c in 0..64u32 {
